@@ -43,6 +43,33 @@ func ruleWalkPartitionVersioned(c *eng.Ctx) {
 	}
 	// queue flag: recursion over Heads passes true, over Links passes false
 	info := enq.Pkg.TypesInfo
+	// order: parents are walked before the field links. The walk copies each visited block into the
+	// transient store and stops at blocks already there; a field block's own Heads are older field
+	// blocks, reached with the queueing flag set — they are only recognised as "already transferred
+	// as part of their composite" if the parent composites were walked first.
+	var headsLoop, linksLoop *ast.RangeStmt
+	for _, st := range enq.Decl.Body.List {
+		if rs, ok := st.(*ast.RangeStmt); ok {
+			if se, ok := ast.Unparen(rs.X).(*ast.SelectorExpr); ok && eng.TypeName(info.TypeOf(se.X)) == "internal/core/block.Block" {
+				switch se.Sel.Name {
+				case "Heads":
+					if headsLoop == nil {
+						headsLoop = rs
+					}
+				case "Links":
+					if linksLoop == nil {
+						linksLoop = rs
+					}
+				}
+			}
+		}
+	}
+	if headsLoop != nil && linksLoop != nil {
+		c.Check(headsLoop.Pos() < linksLoop.Pos(), rule, "versioned:seekNext:parents-before-links", linksLoop.Pos(), "parents are walked before field links",
+			"seekNext walks a commit's field links before its parents: the older field blocks those links point back to are not yet in the transient store and get queued as if they were composite commits — each is then replayed twice (once from the queue, once through its composite's links), doubling counters in time-travel reads")
+	} else {
+		c.Unknown(rule, "versioned:seekNext:parents-before-links", enq.Decl.Pos(), "the two top-level loops over Heads and Links were not found")
+	}
 	ast.Inspect(enq.Decl.Body, func(m ast.Node) bool {
 		rs, ok := m.(*ast.RangeStmt)
 		if !ok {
